@@ -610,7 +610,7 @@ func genProofCase(t *rapid.T) ProofCase {
 	n := rapid.IntRange(0, 4).Draw(t, "nt")
 	for i := 0; i < n; i++ {
 		tm := Tamper{
-			Kind: rapid.SampledFrom([]string{"drop", "dup", "swap", "trunc", "flip", "foreign", "raw", "leafsub", "rawnode", "rawnode"}).Draw(t, "tk"),
+			Kind: rapid.SampledFrom([]string{"drop", "dup", "swap", "trunc", "flip", "foreign", "raw", "leafsub", "rawnode", "rawnode", "forgefront", "forgefront"}).Draw(t, "tk"),
 			I:    rapid.IntRange(0, 40).Draw(t, "ti"),
 			J:    rapid.IntRange(0, 600).Draw(t, "tj"),
 		}
@@ -730,6 +730,33 @@ func checkProofCase(c ProofCase, o *vt.Obs) error {
 			default:
 				nodes = append(nodes, []byte{0x01, 0x01, 0x0a, 0x04}) // extension with an Empty child
 			}
+		case "forgefront":
+			// a well-formed but forged node placed FIRST (where an honest prover puts the root node): an extension
+			// with the whole path of the target key (I even) or a branch (I odd) leading to a leaf with another value
+			leaf := mpt.NewLeafNode([]byte("forged-value"))
+			var nib []byte
+			for _, b := range c.Key {
+				nib = append(nib, b>>4, b&0x0f)
+			}
+			var front mpt.Node
+			if tm.I%2 == 0 || len(nib) == 0 {
+				if len(nib) == 0 {
+					front = leaf
+				} else {
+					front = mpt.NewExtensionNode(nib, leaf)
+				}
+			} else {
+				br := mpt.NewBranchNode()
+				rest := nib[1:]
+				if len(rest) == 0 {
+					br.Children[nib[0]] = leaf
+				} else {
+					br.Children[nib[0]] = mpt.NewExtensionNode(rest, leaf)
+					nodes = append(nodes, br.Children[nib[0]].Bytes())
+				}
+				front = br
+			}
+			nodes = append(append([][]byte{front.Bytes()}, nodes...), leaf.Bytes())
 		case "leafsub":
 			// substitute a leaf holding another stored value
 			ks := sortedKeys(model)
